@@ -52,7 +52,7 @@ def _table(ctx, part, E, K, G, nsplit):
               % (", ".join(to_tla(list(x)) for x in PQS), ", ".join(to_tla(list(x)) for x in first)))
         return tlc.dump_states("MCCone", CFG % dict(E=E, K=K, G=G, part=part), files={"MCCone.tla": mc}, workers=1, timeout=3000)
 
-    with cf.ThreadPoolExecutor(max_workers=16) as ex:
+    with cf.ThreadPoolExecutor(max_workers=8) as ex:
         for res, states in ex.map(one, parts):
             ctx.add_tlc(res, "ConeTable/%s/K=%d/E=%d" % (part, K, E))
             if res.violated or not res.ok:
